@@ -17,7 +17,8 @@ TEXTS = {
     },
     'C20': {
         'level': "Static effect analysis: complete census of static-storage objects of both units and of their write/read "
-                 "sites, transitive static write set of every public function over the resolved call graph, deny-list of "
+                 "sites (documented writers / accessors closed under their private helpers; no library function calls the accessor "
+                 "of the racy error position), transitive static write set of every public function over the resolved call graph, deny-list of "
                  "hidden-state libc functions, LLVM-IR cross-check of globals and stores. Concurrent calls on disjoint "
                  "argument graphs share no written memory other than the documented globals; this covers all interleavings "
                  "because it is an absence-of-shared-state argument, not a schedule exploration.",
@@ -93,7 +94,7 @@ TEXTS.update({
         'ref': 'DESIGN.md 4 C01; 3 BND1 BND2 BND4 BND6 EFF7 TAB1 TAB2',
     },
     'C10': {
-        'level': "Decides the reliability clauses of the failure/success publication: published error position proven inside the buffer (dataflow), both failure outputs computed from one value (def-use on the CFG), global error reset dominating all returns and unreachable-from-store on success (dominance/reachability), termination check on every path under the flag (must-pass-through), guarded read of the terminator (BND1).",
+        'level': "Decides the reliability clauses of the failure/success publication: published error position proven inside the buffer (dataflow), on every failing path that reports a parse end it equals global_error.json + global_error.position as the path leaves them (path-sensitive dataflow over linear expressions, private helpers of the entry point inlined), global error reset dominating all returns and unreachable-from-store on success (dominance/reachability), termination check on every path under the flag (must-pass-through), guarded read of the terminator (BND1).",
         'note': COMMON_NOTE + " Not decided: parse_end <= value+length on success, prefix re-parse equality.",
         'technique': 'static analysis: dataflow bounds facts + dominance / reachability / def-use checks on the entry function',
         'ref': 'DESIGN.md 4 C10; 3 BND5 BND1 TAB2',
@@ -113,7 +114,7 @@ TEXTS.update({
         'ref': 'DESIGN.md 4 C06; 3 LST1-LST4 TAB7; 15 SHP1; 17 CMP1',
     },
     'C11': {
-        'level': "Decides the no-sharing / reference-cleared / bounded-recursion clauses: field-by-field census of the duplicator against the struct definition, provenance of every pointer stored into the copy (fresh-allocation closure), mask shape of the type copy, depth gate with depth+1 handed down, tail link of the copied chain.",
+        'level': "Decides the no-sharing / reference-cleared / bounded-recursion clauses: for every field of the struct, the definitions in effect where the copy is returned or released (forward dataflow over constructor, whole-node copy, stores and helper summaries), provenance of every such pointer (fresh-allocation closure), surviving bits of the type, depth gate with depth+1 handed down, tail link of the copied chain.",
         'note': COMMON_NOTE + " Not decided: equality/print identity as values; later edit histories.",
         'technique': 'static analysis: field-store census vs struct layout, pointer provenance, recursion-gate check',
         'ref': 'DESIGN.md 4 C11; 3 TAB14 TAB1 LST1',
@@ -167,7 +168,7 @@ TEXTS.update({
         'ref': 'DESIGN.md 4 C05; 3 TAB2 TAB15 TAB3 TAB5b TAB16; 17 NUM1',
     },
     'C09': {
-        'level': "For every ensure(p, N) site and every assignment of the boolean atoms, the bytes stored through the granted pointer are at most N (path enumeration with linear symbolic state), every output store goes through such a grant, and ensure grants N+1 bytes inside [0, length) or refuses, with the noalloc gate dominating growth. Exhaustive over sites and paths of the printing functions, where tests sample a few trees and sizes.",
+        'level': "For every ensure(p, N) site and every assignment of the boolean atoms, the bytes stored through the granted pointer are at most N (path enumeration with linear symbolic state), every output store goes through such a grant, and ensure grants at least N bytes inside [0, length) or refuses (the spare byte it keeps is inferred, offset-only refusals must be consistent with it, and the bytes copied out of the old block lie inside it), with the noalloc gate dominating growth. Exhaustive over sites and paths of the printing functions, where tests sample a few trees and sizes.",
         'note': COMMON_NOTE + " Symbols (depth, output_length, strlen) are treated as non-negative integers; the escaping loop's byte count rests on TAB5b.",
         'technique': 'static analysis: symbolic path enumeration with linear expressions over the CFG, loop summaries, dominance checks on ensure()',
         'ref': 'DESIGN.md 4 C09; 3 OUT1 OUT2 OUT4 BND4',
